@@ -204,6 +204,14 @@ pub fn expr_to_source(spanned_expr: &SpannedExpr) -> String {
     }
 }
 
+fn number_to_source(n: f64) -> String {
+    if n.fract() == 0.0 && n.abs() < 1e15 {
+        format!("{:.0}", n)
+    } else {
+        n.to_string()
+    }
+}
+
 fn lambda_arg_to_source(arg: &LambdaArg) -> String {
     match arg {
         LambdaArg::Required(name) => name.clone(),
@@ -590,10 +598,19 @@ fn record_entry_to_source_with_scope(
 fn serializable_value_to_source(value: &SerializableValue) -> String {
     match value {
         SerializableValue::Number(n) => {
-            if n.fract() == 0.0 && n.abs() < 1e15 {
-                format!("{:.0}", n)
+            // Inlined values replace an identifier, so they must read as a single operand
+            if n.is_nan() {
+                "(0 / 0)".to_string()
+            } else if n.is_infinite() {
+                if *n > 0.0 {
+                    "inf".to_string()
+                } else {
+                    "(-inf)".to_string()
+                }
+            } else if n.is_sign_negative() {
+                format!("({})", number_to_source(*n))
             } else {
-                n.to_string()
+                number_to_source(*n)
             }
         }
         SerializableValue::Bool(b) => b.to_string(),
